@@ -99,8 +99,8 @@ def _apy(rate) -> Fraction:
         return Fraction((1 + Decimal(rate) / SECONDS) ** SECONDS - 1)
 
 
-READS_ALL = ["single", "supplies", "borrows", "supplies_value", "borrows_value", "collateral_value", "health_factor", "balance", "all", "max_withdraw", "max_borrow"]
-READS_QUICK = ["single", "health_factor", "all", "max_withdraw"]
+READS_ALL = ["single", "print", "supplies", "borrows", "supplies_value", "borrows_value", "collateral_value", "health_factor", "balance", "all", "max_withdraw", "max_borrow"]
+READS_QUICK = ["single", "print", "health_factor", "all", "max_withdraw"]
 READS = list(READS_QUICK)
 
 
@@ -112,6 +112,8 @@ def do_read(m, which):
         if m._supplies:
             out.append(m.get_supply(list(m._supplies)[0]))
         return out
+    if which == "print":  # the console table of the market (what print(broker) / a debugging strategy shows): a read like any other
+        return m.formatted_str()
     if which == "max_withdraw":  # read-only helper queries go through the cached views too and must leave them as they are
         return [m.get_max_withdraw_amount(t) for t in list(m._supplies)]
     if which == "max_borrow":
